@@ -1,0 +1,639 @@
+//go:build verif
+
+// Verification hook for property C15 (escape graphs form a join-semilattice, transfer functions are monotone).
+// Add-only: this file adds functions and touches no existing line. It is compiled only with `-tags verif`.
+//
+// It provides
+//   - read access to the unexported state of EscapeGraph / Node / functionAnalysisState (serialisation),
+//   - raw constructors so that a harness can build arbitrary (also weakened / non-closed) graphs over existing nodes,
+//   - a switch for the built-in per-instruction monotonicity self-check (checkMonotonicityEveryInstruction) and an
+//     evaluator that COLLECTS the violating pairs out of instructionMonoCheckData instead of logging them,
+//   - VerifEscapeAnalysisPermuted: the drivers of RunForwardIterative and EscapeAnalysis re-implemented with a
+//     caller-chosen worklist order; the per-block step (ProcessBlock) and per-function step (Resummarize) are the
+//     existing ones.
+package escape
+
+import (
+	"fmt"
+	"sort"
+	"strings"
+
+	"github.com/awslabs/ar-go-tools/analysis/config"
+	"github.com/awslabs/ar-go-tools/analysis/dataflow"
+	"github.com/awslabs/ar-go-tools/internal/graphutil"
+	"golang.org/x/tools/go/callgraph"
+	"golang.org/x/tools/go/ssa"
+)
+
+// ------------------------------------------------------------------------------------------------ nodes and graphs
+
+// VerifNodeInfo is the externally visible part of a Node.
+type VerifNodeInfo struct {
+	Number    int
+	Kind      int
+	Intrinsic int
+	Debug     string
+}
+
+// VerifInfo returns number, kind and intrinsic status of a node.
+func VerifInfo(n *Node) VerifNodeInfo {
+	return VerifNodeInfo{n.number, int(n.kind), int(n.IntrinsicEscape()), n.debugInfo}
+}
+
+// VerifNodes returns every node mentioned by g (status keys, edge sources, edge destinations) sorted by number.
+func VerifNodes(g *EscapeGraph) []*Node {
+	seen := map[*Node]bool{}
+	for n := range g.status {
+		seen[n] = true
+	}
+	for s, out := range g.edges {
+		seen[s] = true
+		for d := range out {
+			seen[d] = true
+		}
+	}
+	res := make([]*Node, 0, len(seen))
+	for n := range seen {
+		res = append(res, n)
+	}
+	sort.Slice(res, func(i, j int) bool { return res[i].number < res[j].number })
+	return res
+}
+
+// VerifStatus returns the status entry of n in g (ok=false when n is not a key of g.status).
+func VerifStatus(g *EscapeGraph, n *Node) (int, bool) {
+	s, ok := g.status[n]
+	return int(s), ok
+}
+
+// VerifHasEdgeKey says whether n is a key of g.edges.
+func VerifHasEdgeKey(g *EscapeGraph, n *Node) bool {
+	_, ok := g.edges[n]
+	return ok
+}
+
+// VerifOut returns the out-edge entries of src (destinations sorted by number) with their raw flag byte.
+func VerifOut(g *EscapeGraph, src *Node) ([]*Node, []int) {
+	out := g.edges[src]
+	ds := make([]*Node, 0, len(out))
+	for d := range out {
+		ds = append(ds, d)
+	}
+	sort.Slice(ds, func(i, j int) bool { return ds[i].number < ds[j].number })
+	fs := make([]int, len(ds))
+	for i, d := range ds {
+		fs[i] = int(out[d])
+	}
+	return ds, fs
+}
+
+// VerifSerialize prints g canonically: one "n <number> <status|-> <edgekey 0|1>" line per node mentioned and one
+// "e <src> <dst> <flags>" line per edge entry, sorted.  Rationales are left out (as in Matches).
+func VerifSerialize(g *EscapeGraph) string {
+	var sb strings.Builder
+	for _, n := range VerifNodes(g) {
+		st := "-"
+		if s, ok := g.status[n]; ok {
+			st = fmt.Sprintf("%d", s)
+		}
+		k := 0
+		if _, ok := g.edges[n]; ok {
+			k = 1
+		}
+		fmt.Fprintf(&sb, "n %d %s %d\n", n.number, st, k)
+	}
+	for _, n := range VerifNodes(g) {
+		ds, fs := VerifOut(g, n)
+		for i, d := range ds {
+			fmt.Fprintf(&sb, "e %d %d %d\n", n.number, d.number, fs[i])
+		}
+	}
+	return sb.String()
+}
+
+// VerifNodeGroupOf returns the node group of g.
+func VerifNodeGroupOf(g *EscapeGraph) *NodeGroup { return g.nodes }
+
+// VerifNewNodeGroup makes a fresh node group with a fresh global group (for synthetic graphs).
+func VerifNewNodeGroup() *NodeGroup { return NewNodeGroup(newGlobalNodeGroup()) }
+
+// VerifNewNode makes a fresh node of the given kind (0..8) in the group.
+func VerifNewNode(ng *NodeGroup, kind int, debug string) *Node {
+	return ng.NewNode(nodeKind(kind), debug, nil)
+}
+
+// VerifRawSetStatus writes g.status[n] directly (no closure, no edge key).
+func VerifRawSetStatus(g *EscapeGraph, n *Node, s int) { g.status[n] = EscapeStatus(s) }
+
+// VerifRawDelStatus removes the status entry.
+func VerifRawDelStatus(g *EscapeGraph, n *Node) { delete(g.status, n) }
+
+// VerifRawDelEdgeKey removes the key n from g.edges (with all its out-edges).
+func VerifRawDelEdgeKey(g *EscapeGraph, n *Node) { delete(g.edges, n) }
+
+// VerifRawEdgeKey makes sure g.edges has the key n.
+func VerifRawEdgeKey(g *EscapeGraph, n *Node) {
+	if _, ok := g.edges[n]; !ok {
+		g.edges[n] = map[*Node]edgeFlags{}
+	}
+}
+
+// VerifRawSetEdge writes g.edges[a][b] = flags directly (no closure, no AddNode); flags==0 deletes the entry.
+func VerifRawSetEdge(g *EscapeGraph, a, b *Node, flags int) {
+	VerifRawEdgeKey(g, a)
+	if flags == 0 {
+		delete(g.edges[a], b)
+		return
+	}
+	g.edges[a][b] = edgeFlags(flags)
+}
+
+// VerifAddEdge is AddEdge with an integer flag argument.
+func VerifAddEdge(g *EscapeGraph, a, b *Node, flags int) { g.AddEdge(a, b, edgeFlags(flags)) }
+
+// VerifMergeNodeStatus is MergeNodeStatus with an integer status.
+func VerifMergeNodeStatus(g *EscapeGraph, n *Node, s int) { g.MergeNodeStatus(n, EscapeStatus(s), nil) }
+
+// VerifComputeEdgeClosure calls the unexported computeEdgeClosure.
+func VerifComputeEdgeClosure(g *EscapeGraph, a, b *Node) { g.computeEdgeClosure(a, b) }
+
+// VerifIsSubnodeSource says whether some out-edge of n carries the subnode flag (WeakAssign then needs the node
+// group's subnode tables).
+func VerifHasSubnodeEdge(g *EscapeGraph, n *Node) bool {
+	for _, f := range g.edges[n] {
+		if f&EdgeSubnode != 0 {
+			return true
+		}
+	}
+	return false
+}
+
+// ------------------------------------------------------------------------------------------------ analysis state
+
+// VerifFunctions returns the functions that have an analysis state in prog, sorted by name.
+func VerifFunctions(prog *ProgramAnalysisState) []*ssa.Function {
+	res := []*ssa.Function{}
+	for f := range prog.summaries {
+		res = append(res, f)
+	}
+	sort.Slice(res, func(i, j int) bool { return res[i].String() < res[j].String() })
+	return res
+}
+
+// VerifSummaryType returns the summary type of f ("summarize", "unknown", ...), "" if absent.
+func VerifSummaryType(prog *ProgramAnalysisState, f *ssa.Function) string {
+	if s, ok := prog.summaries[f]; ok {
+		return s.summaryType
+	}
+	return ""
+}
+
+// VerifBlockGraphs returns the block-end graph of every block of f (nil where none was computed), by block index.
+func VerifBlockGraphs(prog *ProgramAnalysisState, f *ssa.Function) []*EscapeGraph {
+	s, ok := prog.summaries[f]
+	if !ok {
+		return nil
+	}
+	res := make([]*EscapeGraph, len(f.Blocks))
+	for i, b := range f.Blocks {
+		res[i] = s.blockEnd[b]
+	}
+	return res
+}
+
+// VerifInitialGraph returns the initial graph of f.
+func VerifInitialGraph(prog *ProgramAnalysisState, f *ssa.Function) *EscapeGraph {
+	if s, ok := prog.summaries[f]; ok {
+		return s.initialGraph
+	}
+	return nil
+}
+
+// VerifFinalGraph returns the summary graph of f and whether the analysis overflowed.
+func VerifFinalGraph(prog *ProgramAnalysisState, f *ssa.Function) (*EscapeGraph, bool) {
+	if s, ok := prog.summaries[f]; ok {
+		return s.finalGraph, s.overflow
+	}
+	return nil, false
+}
+
+// ------------------------------------------------------------------------------------------------ structural names
+
+// VerifNamer gives nodes names that do not depend on the order of node creation: a node is named after the thing
+// the node group keys it by (ssa value, allocation instruction, parameter, return slot, global, static function),
+// subnodes after their parent and reason, load nodes after their base.
+type VerifNamer struct {
+	base map[*Node]string
+	prog *ProgramAnalysisState
+	memo map[*Node]string
+}
+
+func instrKey(i ssa.Instruction) string {
+	b := i.Block()
+	if b == nil {
+		return "?"
+	}
+	for k, x := range b.Instrs {
+		if x == i {
+			return fmt.Sprintf("%d.%d", b.Index, k)
+		}
+	}
+	return fmt.Sprintf("%d.?", b.Index)
+}
+
+// VerifNewNamer builds the namer for all node groups of prog.
+func VerifNewNamer(prog *ProgramAnalysisState) *VerifNamer {
+	nm := &VerifNamer{map[*Node]string{}, prog, map[*Node]string{}}
+	for f, s := range prog.summaries {
+		fn := f.String()
+		ng := s.nodes
+		if ng == nil {
+			continue
+		}
+		for v, n := range ng.variables {
+			switch vv := v.(type) {
+			case *ssa.Global:
+				nm.base[n] = fn + "#gv:" + vv.String()
+			case *ssa.Function:
+				nm.base[n] = fn + "#fv:" + vv.String()
+			case *ssa.Const:
+				nm.base[n] = fn + "#c:" + vv.String()
+			default:
+				nm.base[n] = fn + "#v:" + v.Name()
+			}
+		}
+		for k, n := range ng.allocs {
+			nm.base[n] = fn + "#a:" + instrKey(k.instr) + ":" + k.index
+		}
+		for v, n := range ng.params {
+			nm.base[n] = fn + "#p:" + v.Name()
+		}
+		for i, n := range ng.returnNodes {
+			nm.base[n] = fmt.Sprintf("%s#r:%d", fn, i)
+		}
+		if ng.nilNode != nil {
+			nm.base[ng.nilNode] = fn + "#nil"
+		}
+		if ng.unusedNode != nil {
+			nm.base[ng.unusedNode] = fn + "#unused"
+		}
+		if ng.unknownReturn != nil {
+			nm.base[ng.unknownReturn] = fn + "#unknownret"
+		}
+	}
+	for gl, n := range prog.globalNodes.globals {
+		nm.base[n] = "G:" + gl.String()
+	}
+	for f, n := range prog.globalNodes.staticFunctions {
+		nm.base[n] = "SF:" + f.String()
+	}
+	return nm
+}
+
+// Name returns the structural name of n.
+func (nm *VerifNamer) Name(n *Node) string {
+	return nm.name(n, 0)
+}
+
+func (nm *VerifNamer) name(n *Node, depth int) string {
+	if s, ok := nm.memo[n]; ok {
+		return s
+	}
+	var s string
+	if b, ok := nm.base[n]; ok {
+		s = b
+	} else if depth > 200 {
+		s = fmt.Sprintf("?deep:%d:%s", n.kind, n.debugInfo)
+	} else if p, ok := nm.prog.globalNodes.parent[n]; ok {
+		reason := ""
+		switch r := p.data.(type) {
+		case fieldSubnodeReason:
+			reason = "." + r.field
+		case implementationSubnodeReason:
+			reason = "!" + r.tp
+		default:
+			reason = fmt.Sprintf("?%v", r)
+		}
+		s = nm.name(p.node, depth+1) + reason
+	} else {
+		found := false
+		for _, fs := range nm.prog.summaries {
+			if fs.nodes == nil {
+				continue
+			}
+			if b, ok := fs.nodes.loadBase[n]; ok {
+				s = nm.name(b, depth+1) + "^"
+				found = true
+				break
+			}
+		}
+		if !found {
+			s = fmt.Sprintf("?%d:%s", n.kind, n.debugInfo)
+		}
+	}
+	nm.memo[n] = s
+	return s
+}
+
+// VerifCanonical prints g with structural node names (sorted lines), so that graphs of two analysis runs with
+// different node numbering can be compared.
+func (nm *VerifNamer) VerifCanonical(g *EscapeGraph) string {
+	if g == nil {
+		return "<nil>\n"
+	}
+	lines := []string{}
+	for n, s := range g.status {
+		lines = append(lines, fmt.Sprintf("s %s = %d", nm.Name(n), s))
+	}
+	for a, out := range g.edges {
+		if len(out) == 0 {
+			lines = append(lines, fmt.Sprintf("k %s", nm.Name(a)))
+		}
+		for b, f := range out {
+			lines = append(lines, fmt.Sprintf("e %s -> %s : %d", nm.Name(a), nm.Name(b), f))
+		}
+	}
+	sort.Strings(lines)
+	return strings.Join(lines, "\n") + "\n"
+}
+
+// ------------------------------------------------------------------------------------------------ monotonicity check
+
+// VerifMonoEnable switches the existing per-instruction monotonicity self-check on or off and clears its data.
+func VerifMonoEnable(on bool) {
+	checkMonotonicityEveryInstruction = on
+	instructionMonoCheckData = map[ssa.Instruction][]cachedGraphMonotonicity{}
+}
+
+// VerifMonoRecord is one (pre, post) observation of the transfer function at an instruction.
+type VerifMonoRecord struct {
+	Instr ssa.Instruction
+	Pre   *EscapeGraph
+	Post  *EscapeGraph
+}
+
+// VerifMonoRecords returns what the self-check recorded, instructions ordered by function/block/index.
+func VerifMonoRecords() [][]VerifMonoRecord {
+	type keyed struct {
+		key string
+		rs  []VerifMonoRecord
+	}
+	all := []keyed{}
+	for instr, pairs := range instructionMonoCheckData {
+		rs := make([]VerifMonoRecord, len(pairs))
+		for i, p := range pairs {
+			rs[i] = VerifMonoRecord{instr, p.input, p.output}
+		}
+		fn := ""
+		if instr.Parent() != nil {
+			fn = instr.Parent().String()
+		}
+		all = append(all, keyed{fmt.Sprintf("%s|%s", fn, instrKey(instr)), rs})
+	}
+	sort.Slice(all, func(i, j int) bool { return all[i].key < all[j].key })
+	res := make([][]VerifMonoRecord, len(all))
+	for i, k := range all {
+		res[i] = k.rs
+	}
+	return res
+}
+
+// VerifMonoViolation is a collected violation: Old.Pre <= New.Pre but not Old.Post <= New.Post.
+type VerifMonoViolation struct {
+	Instr    ssa.Instruction
+	OldIndex int
+	NewIndex int
+	Forward  bool // true: Old was observed before New (the direction the built-in check looks at)
+	Reason   string
+	Old, New VerifMonoRecord
+}
+
+// VerifMonoViolations evaluates the built-in check's condition on everything recorded, collecting instead of
+// logging.  Forward pairs (earlier observation vs later observation) are exactly the pairs the built-in check
+// compares; with both=true the reverse pairs are evaluated too.  maxPerInstr bounds the number of records per
+// instruction that are compared (the most recent ones), 0 = all.
+func VerifMonoViolations(both bool, maxPerInstr int) (violations []VerifMonoViolation, pairsChecked int, pairsComparable int) {
+	for _, rs := range VerifMonoRecords() {
+		if maxPerInstr > 0 && len(rs) > maxPerInstr {
+			rs = rs[len(rs)-maxPerInstr:]
+		}
+		for j := range rs {
+			for i := 0; i < j; i++ {
+				pairsChecked++
+				if le, _ := rs[i].Pre.LessEqual(rs[j].Pre); le {
+					pairsComparable++
+					if ok, reason := rs[i].Post.LessEqual(rs[j].Post); !ok {
+						violations = append(violations, VerifMonoViolation{rs[i].Instr, i, j, true, reason, rs[i], rs[j]})
+					}
+				}
+				if both {
+					if le, _ := rs[j].Pre.LessEqual(rs[i].Pre); le {
+						pairsComparable++
+						if ok, reason := rs[j].Post.LessEqual(rs[i].Post); !ok {
+							violations = append(violations, VerifMonoViolation{rs[i].Instr, j, i, false, reason, rs[j], rs[i]})
+						}
+					}
+				}
+			}
+		}
+	}
+	return
+}
+
+// VerifTransfer applies the real transfer function of instr (of function f in prog) to a clone of g.
+func VerifTransfer(prog *ProgramAnalysisState, instr ssa.Instruction, g *EscapeGraph) *EscapeGraph {
+	s := prog.summaries[instr.Parent()]
+	h := g.Clone()
+	s.transferFunction(instr, h)
+	return h
+}
+
+// VerifOperandNodes returns the nodes that the node group of instr's function already associates with the operands
+// of instr and with instr's own value (nothing is created).
+func VerifOperandNodes(prog *ProgramAnalysisState, instr ssa.Instruction) []*Node {
+	s := prog.summaries[instr.Parent()]
+	if s == nil || s.nodes == nil {
+		return nil
+	}
+	var res []*Node
+	add := func(v ssa.Value) {
+		if n, ok := s.nodes.variables[v]; ok {
+			res = append(res, n)
+		}
+	}
+	var ops []*ssa.Value
+	for _, op := range instr.Operands(ops) {
+		if op != nil && *op != nil {
+			add(*op)
+		}
+	}
+	if v, ok := instr.(ssa.Value); ok {
+		add(v)
+	}
+	return res
+}
+
+// ------------------------------------------------------------------------------------------------ permuted drivers
+
+// VerifChooser picks an index in [0,n).
+type VerifChooser func(n int) int
+
+// verifRunBlocksPermuted is RunForwardIterative with the block to process next chosen by the caller.  It uses the
+// existing ProcessBlock and addToBlockWorklist.  When a block-end graph is too large it leaves that block at the
+// head of the worklist so that the subsequent call of the real Resummarize hits the same error path.
+func (ea *functionAnalysisState) verifRunBlocksPermuted(choose VerifChooser) {
+	if len(ea.function.Blocks) == 0 {
+		return
+	}
+	for len(ea.worklist) > 0 {
+		k := choose(len(ea.worklist))
+		block := ea.worklist[k]
+		rest := make([]*ssa.BasicBlock, 0, len(ea.worklist))
+		rest = append(rest, ea.worklist[:k]...)
+		rest = append(rest, ea.worklist[k+1:]...)
+		if graphTooLarge(ea.prog.state, ea.blockEnd[block]) {
+			ea.worklist = append([]*ssa.BasicBlock{block}, rest...)
+			return
+		}
+		ea.worklist = rest
+		if ea.ProcessBlock(block) {
+			for _, nextBlock := range block.Succs {
+				ea.addToBlockWorklist(nextBlock)
+			}
+		}
+	}
+}
+
+// VerifStats counts the work of a permuted run.
+type VerifStats struct {
+	FunctionSteps int
+	Functions     int
+}
+
+// VerifEscapeAnalysisPermuted is EscapeAnalysis with both worklists (functions, and blocks inside Resummarize)
+// driven in a caller-chosen order.  mode "scc": the initial worklist is the code's reverse-topological SCC order
+// and only the choice inside the current SCC and the block order are permuted; mode "any": the function to
+// re-summarise next is chosen freely among all queued functions.  The per-function step is the existing
+// Resummarize (called after the block worklist has been emptied in the chosen order), the re-queueing rule is the
+// existing one (uses of a changed summary whose recorded graph no longer matches).
+func VerifEscapeAnalysisPermuted(state *dataflow.AnalyzerState, choose VerifChooser, mode string, maxSteps int) (*ProgramAnalysisState, VerifStats, error) {
+	stats := VerifStats{}
+	prog := &ProgramAnalysisState{
+		summaries:   make(map[*ssa.Function]*functionAnalysisState),
+		globalNodes: newGlobalNodeGroup(),
+		logger:      state.Logger,
+		state:       state,
+	}
+	nodes := []*callgraph.Node{}
+	nodesToAnalyze := map[*ssa.Function]bool{}
+	// deterministic creation order of the per-function states
+	fs := []*ssa.Function{}
+	for f := range state.PointerAnalysis.CallGraph.Nodes {
+		fs = append(fs, f)
+	}
+	sort.Slice(fs, func(i, j int) bool {
+		if fs[i].String() != fs[j].String() {
+			return fs[i].String() < fs[j].String()
+		}
+		return fs[i].Pos() < fs[j].Pos()
+	})
+	for _, f := range fs {
+		node := state.PointerAnalysis.CallGraph.Nodes[f]
+		st := prog.getFunctionAnalysisSummary(f)
+		if st.summaryType == config.EscapeBehaviorSummarize {
+			nodes = append(nodes, node)
+			nodesToAnalyze[f] = true
+		}
+	}
+	prog.builtWorklist = true
+	succ := func(n *callgraph.Node) []*callgraph.Node {
+		succs := []*callgraph.Node{}
+		for _, e := range n.Out {
+			succs = append(succs, e.Callee)
+		}
+		return succs
+	}
+	worklist := make([]*functionAnalysisState, 0)
+	sccOfFunc := map[*functionAnalysisState]int{}
+	for sccIndex, scc := range graphutil.StronglyConnectedComponents(nodes, succ) {
+		for _, n := range scc {
+			if summary, ok := prog.summaries[n.Func]; ok && nodesToAnalyze[n.Func] {
+				sccOfFunc[summary] = sccIndex
+				worklist = append(worklist, summary)
+			}
+		}
+	}
+	for i, j := 0, len(worklist)-1; i < j; i, j = i+1, j-1 {
+		worklist[i], worklist[j] = worklist[j], worklist[i]
+	}
+	stats.Functions = len(worklist)
+	for len(worklist) > 0 {
+		stats.FunctionSteps++
+		if maxSteps > 0 && stats.FunctionSteps > maxSteps {
+			return prog, stats, fmt.Errorf("permuted function worklist did not empty within %d steps", maxSteps)
+		}
+		// choose the next function
+		k := len(worklist) - 1
+		if mode == "any" {
+			k = choose(len(worklist))
+		} else {
+			// any member of the SCC that is on top of the stack
+			lo := k
+			for lo > 0 && sccOfFunc[worklist[lo-1]] == sccOfFunc[worklist[k]] {
+				lo--
+			}
+			k = lo + choose(k-lo+1)
+		}
+		summary := worklist[k]
+		worklist = append(worklist[:k:k], worklist[k+1:]...)
+
+		if summary.summaryType == config.EscapeBehaviorSummarize {
+			summary.verifRunBlocksPermuted(choose)
+		}
+		changed := summary.Resummarize()
+		if !changed {
+			continue
+		}
+		// deterministic order of the uses
+		uses := []summaryUse{}
+		for location := range summary.summaryUses {
+			uses = append(uses, location)
+		}
+		sort.Slice(uses, func(i, j int) bool {
+			a, b := uses[i], uses[j]
+			if a.function.function.String() != b.function.function.String() {
+				return a.function.function.String() < b.function.function.String()
+			}
+			return instrKey(a.instruction) < instrKey(b.instruction)
+		})
+		for _, location := range uses {
+			graphUsed := summary.summaryUses[location]
+			if !summary.finalGraph.Matches(graphUsed) {
+				location.function.addToBlockWorklist(location.instruction.Block())
+				found := false
+				for _, entry := range worklist {
+					if entry == location.function {
+						found = true
+						break
+					}
+				}
+				if !found {
+					if mode == "any" {
+						p := choose(len(worklist) + 1)
+						worklist = append(worklist, nil)
+						copy(worklist[p+1:], worklist[p:])
+						worklist[p] = location.function
+					} else {
+						worklist = append(worklist, location.function)
+						i := len(worklist) - 1
+						for i > 0 && sccOfFunc[worklist[i]] == sccOfFunc[worklist[i-1]] {
+							worklist[i], worklist[i-1] = worklist[i-1], worklist[i]
+							i = i - 1
+						}
+					}
+				}
+			}
+		}
+	}
+	return prog, stats, nil
+}
